@@ -52,6 +52,7 @@ def gen(rng, **force):
         'group_tsv': rng.random() < 0.3, 'labels': rng.random() < 0.3, 'cluster_probes': rng.random() < 0.3,
         'cluster_shanks': rng.random() < 0.2, 'drift': rng.random() < 0.25, 'temp_wh': rng.random() < 0.35,
         'old_subset': rng.random() < 0.15, 'last_template_empty': rng.random() < 0.25, 'big_ids': rng.random() < 0.12,
+        'other_template_empty': rng.choice(['no', 'no', 'no', 'no', 'first', 'middle']),
         'label': rng.choice(['', 'probe00', 'probe00', 'imec1']), 'factor': rng.choice([1, 2.5]),
         'target': 'fresh', 'params_py': rng.random() < 0.85, 'rate': rng.choice([128.0, 1024.0, 100.0, 30000.0, 25000.0]),
         'similar': rng.random() < 0.2, 'extra_dat_channels': rng.choice([0, 0, 1, 3]),
@@ -68,6 +69,14 @@ def gen(rng, **force):
         # the highest template has no spike (DESIGN.md section 9, C08/C13 row): n_clusters must still be n_templates
         st = [t if t != nt - 1 else rng.randrange(nt - 1) for t in st]
         sem['spike_templates'] = st
+    if o['other_template_empty'] != 'no' and nt >= 3:
+        # a template other than the last without spikes ("Unreferenced clusters found in templates", model.py:603):
+        # the tables still have one row per template / per id
+        k = 0 if o['other_template_empty'] == 'first' else rng.randrange(1, nt - 1)
+        keep = [t for t in range(nt) if t != k and not (o['last_template_empty'] and t == nt - 1)]
+        if keep:
+            st = [t if t != k else rng.choice(keep) for t in st]
+            sem['spike_templates'] = st
     # curation
     sc = None
     if o['curated'] == 'ops':
